@@ -679,18 +679,29 @@ Proof.
   intros H; inversion H; subst. simpl. exact E.
 Qed.
 
-Lemma fallback_usable : usable (Some fallback_addr) = true.
-Proof. reflexivity. Qed.
+(* IPCP was never started: Initial, no session address, not open *)
+Definition sess_idle (s : sess) : Prop := s_fsm s = 0%N /\ s_addr s = None /\ s_open s = false.
+Definition sess_ok (s : sess) : Prop := sess_idle s \/ sess_inv s.
 
-Lemma sess_start_inv : forall aaa, sess_inv (sess_start repaired aaa).
+(* startNCP: either IPCP is (re)started with a usable assignment, or the address is unusable and IPCP is
+   left alone *)
+Lemma start_ncp_inv : forall c st p addr op last,
+  (usable addr = false -> st = 0%N /\ op = false) ->
+  sess_ok (fst (start_ncp repaired c st p addr op last)).
 Proof.
-  intros aaa. unfold sess_start.
-  set (a := match extract_ip repaired aaa with Some x => x | None => fallback_addr end).
-  assert (Hu : usable (Some a) = true).
-  { unfold a. destruct (extract_ip repaired aaa) eqn:E; [eapply extract_repaired_usable; eauto|apply fallback_usable]. }
-  destruct (usable_spec _ Hu) as (v & Hv & Hl & Hz). simpl in Hv.
-  exists v. simpl. rewrite Hv. repeat split; auto. exists a. auto.
+  intros c st p addr op last Hno. unfold start_ncp.
+  destruct (usable addr) eqn:Hu.
+  - right. destruct (usable_spec _ Hu) as (v & Hv & Hl & Hz).
+    unfold ipcp_set_peer. simpl. destruct (up_open st) as [a st'] eqn:E. simpl.
+    exists v. simpl. rewrite Hv. repeat split; auto.
+    destruct addr as [x|]; [|discriminate]. exists x. auto.
+  - left. destruct (Hno eq_refl) as [-> ->]. simpl. repeat split.
 Qed.
+
+Lemma sess_start_ok : forall aaa, sess_ok (sess_start repaired aaa).
+Proof. intros aaa. unfold sess_start. apply start_ncp_inv. auto. Qed.
+
+Definition is_reauth_b (e : sev) : bool := match e with EvReauth _ => true | _ => false end.
 
 Lemma on_act_fold_inv : forall v p acts ad op,
   length v = 4%nat ->
@@ -719,21 +730,18 @@ Proof.
   pose proof (on_act_fold_inv v (s_peer s) a (s_addr s) (s_open s) Hl Hp Ha) as H. rewrite F in H. exact H.
 Qed.
 
-Lemma sess_reauth_inv : forall s aaa, sess_inv s -> sess_inv (fst (sess_step repaired s (EvReauth aaa))).
+Lemma sess_reauth_ok : forall s aaa, sess_ok s -> sess_ok (fst (sess_step repaired s (EvReauth aaa))).
 Proof.
-  intros s aaa (v & Hv & Hl & Hz & (a0 & Ha0 & Hto0) & Hp). cbn [sess_step].
-  set (a := match extract_ip repaired aaa with Some x => x
-            | None => match s_addr s with Some x => x | None => fallback_addr end end).
-  assert (Hu : usable (Some a) = true).
-  { unfold a. destruct (extract_ip repaired aaa) eqn:E; [eapply extract_repaired_usable; eauto|].
-    rewrite Ha0. simpl. rewrite Hto0, Hz. reflexivity. }
-  destruct (usable_spec _ Hu) as (v' & Hv' & Hl' & Hz'). simpl in Hv'.
-  unfold ipcp_set_peer. simpl. exists v'. simpl. rewrite Hv'. repeat split; auto. exists a. auto.
+  intros s aaa H. cbn [sess_step]. apply start_ncp_inv. intros Hu.
+  destruct H as [(H1 & H2 & H3)|(v & Hv & Hl & Hz & (a0 & Ha0 & Hto0) & Hp)]; [auto|].
+  exfalso. destruct (extract_ip repaired aaa) eqn:E.
+  - rewrite (extract_repaired_usable _ _ E) in Hu. discriminate.
+  - rewrite Ha0 in Hu. simpl in Hu. rewrite Hto0, Hz in Hu. discriminate.
 Qed.
 
-Lemma sess_step_inv : forall s e, sess_inv s -> sess_inv (fst (sess_step repaired s e)).
+Lemma sess_step_inv : forall s e, is_reauth_b e = false -> sess_inv s -> sess_inv (fst (sess_step repaired s e)).
 Proof.
-  intros s e Hinv. destruct e as [id wire| |w|w|w|aaa]; [| | | | |apply sess_reauth_inv; exact Hinv];
+  intros s e Hre Hinv. destruct e as [id wire| |w|w|w|aaa]; [| | | | |discriminate];
     cbn [sess_step];
     try (apply sess_fsm_only_inv; [exact Hinv|]; try reflexivity; apply ipcp_learn_assigned).
   pose proof (usable_assigned_of_inv s Hinv) as Hu.
@@ -757,12 +765,30 @@ Proof.
   pose proof (on_act_fold_inv v p' a (s_addr s) (s_open s) Hl Hp' Ha) as H. rewrite F in H. exact H.
 Qed.
 
-Lemma sess_run_inv : forall es s, sess_inv s -> sess_inv (sess_run repaired s es).
+(* a session whose IPCP was never started stays silent and closed whatever the subscriber sends *)
+Lemma sess_step_idle : forall fl s e, is_reauth_b e = false -> sess_idle s ->
+  sess_idle (fst (sess_step fl s e)) /\ snd (sess_step fl s e) = [].
 Proof.
-  induction es as [|e es IH]; intros s H; simpl; auto. apply IH. apply sess_step_inv. exact H.
+  intros fl s e Hre (H1 & H2 & H3). unfold sess_idle.
+  destruct e as [id wire| |w|w|w|aaa]; [| | | | |discriminate]; cbn [sess_step];
+    unfold sess_fsm_only; rewrite ?H1, ?H2, ?H3; try (simpl; auto; fail).
+  unfold ipcp_input. destruct (parse_wire wire); simpl; auto.
+  destruct (ipcp_req (s_cfg s) (s_peer s) a) as [r p']. simpl. auto.
 Qed.
 
-Definition is_reauth (e : sev) : bool := match e with EvReauth _ => true | _ => false end.
+Lemma sess_step_ok : forall s e, sess_ok s -> sess_ok (fst (sess_step repaired s e)).
+Proof.
+  intros s e H. destruct (is_reauth_b e) eqn:Hre.
+  - destruct e; try discriminate. apply sess_reauth_ok. exact H.
+  - destruct H as [H|H]; [left; apply sess_step_idle; auto|right; apply sess_step_inv; auto].
+Qed.
+
+Lemma sess_run_ok : forall es s, sess_ok s -> sess_ok (sess_run repaired s es).
+Proof.
+  induction es as [|e es IH]; intros s H; simpl; auto. apply IH. apply sess_step_ok. exact H.
+Qed.
+
+Definition is_reauth (e : sev) : bool := is_reauth_b e.
 
 (* no packet of the subscriber changes the assigned address (any variant); only a new AAA answer does *)
 Lemma sess_step_assigned : forall fl s e, is_reauth e = false ->
@@ -786,21 +812,39 @@ Proof.
   apply sess_step_assigned. destruct (is_reauth e); [discriminate|reflexivity].
 Qed.
 
-(* the session address, read as an IPv4 address, is the assigned one at every point of every history *)
+(* at every point of every history: either IPCP was never started (no address, silent, closed), or the
+   assigned address is usable, the session address is the assigned one and nothing stale is remembered *)
 Lemma adopted_is_assigned : forall aaa es,
   let s := sess_run repaired (sess_start repaired aaa) es in
-  usable (ic_assigned (s_cfg s)) = true /\
-  to4o (s_addr s) = ic_assigned (s_cfg s) /\
-  (pp_addr (s_peer s) = None \/ pp_addr (s_peer s) = ic_assigned (s_cfg s)).
+  (s_fsm s = 0%N /\ s_addr s = None /\ s_open s = false) \/
+  (usable (ic_assigned (s_cfg s)) = true /\
+   to4o (s_addr s) = ic_assigned (s_cfg s) /\
+   (pp_addr (s_peer s) = None \/ pp_addr (s_peer s) = ic_assigned (s_cfg s))).
 Proof.
   intros aaa es s.
-  pose proof (sess_run_inv es _ (sess_start_inv aaa)) as H. fold s in H.
+  pose proof (sess_run_ok es _ (sess_start_ok aaa)) as H. fold s in H.
+  destruct H as [H|H]; [left; exact H|right].
   split; [apply usable_assigned_of_inv; exact H|].
   destruct H as (v & Hv & _ & _ & (a & Ha & Hto) & Hp). rewrite Ha, Hv. simpl. split; [exact Hto|exact Hp].
 Qed.
 
-Lemma startncp_assigned : forall aaa, usable (ic_assigned (s_cfg (sess_start repaired aaa))) = true.
-Proof. intros. apply usable_assigned_of_inv. apply sess_start_inv. Qed.
+(* startNCP starts IPCP exactly when the session owns a usable IPv4 address, and then with that address
+   assigned; a session without one never starts IPCP *)
+Lemma startncp_assigned : forall aaa,
+  let s := sess_start repaired aaa in
+  (usable (extract_ip repaired aaa) = true ->
+     s_fsm s = 6%N /\ usable (ic_assigned (s_cfg s)) = true /\
+     ic_assigned (s_cfg s) = to4o (extract_ip repaired aaa) /\ s_addr s = extract_ip repaired aaa) /\
+  (usable (extract_ip repaired aaa) = false ->
+     s_fsm s = 0%N /\ s_addr s = None /\ s_open s = false /\ ic_assigned (s_cfg s) = None).
+Proof.
+  intros aaa s. unfold s, sess_start, start_ncp.
+  destruct (usable (extract_ip repaired aaa)) eqn:Hu; split; intros H; try discriminate.
+  - simpl. repeat split; auto.
+    destruct (usable_spec _ Hu) as (v & Hv & Hl & Hz). rewrite Hv. simpl.
+    rewrite (to4_of_len4 v Hl), Hz. reflexivity.
+  - simpl. repeat split.
+Qed.
 
 (* ------------------------------------------------------------------ histories on one object *)
 (* the decision never depends on remembered peer state *)
@@ -935,4 +979,42 @@ Proof.
   intros s ops l os r H o Ho.
   destruct (v6obj_trace_spec _ _ _ _ _ H) as (peer & oracle & ->).
   eapply ipv6cp_iid; exact Ho.
+Qed.
+
+(* what one IPCP object remembers as the negotiated peer address is, at every point of every history, an
+   address it would acknowledge again under the configuration in force (repaired SetPeerAddress) *)
+Definition remembered_ok (s : iobj) : Prop :=
+  forall x, pp_addr (io_peer s) = Some x -> ipcp_kind (io_cfg s) (mkopt 3 x) = KAck.
+
+Lemma ipcp_kind3_assigned : forall c c' o, ic_assigned c = ic_assigned c' -> o_type o = 3%N ->
+  ipcp_kind c o = ipcp_kind c' o.
+Proof. intros c c' o H Ht. unfold ipcp_kind. rewrite Ht, H. reflexivity. Qed.
+
+Lemma ipcp_kind3_data : forall c o, o_type o = 3%N -> ipcp_kind c o = ipcp_kind c (mkopt 3 (o_data o)).
+Proof. intros c o Ht. unfold ipcp_kind. rewrite Ht. reflexivity. Qed.
+
+Lemma iobj_step_remembered : forall s o, remembered_ok s -> remembered_ok (fst (iobj_step repaired s o)).
+Proof.
+  intros s o H. unfold remembered_ok in *.
+  assert (K : forall c', ic_assigned c' = ic_assigned (io_cfg s) ->
+              forall x, pp_addr (io_peer s) = Some x -> ipcp_kind c' (mkopt 3 x) = KAck).
+  { intros c' E x Hx. rewrite (ipcp_kind3_assigned c' (io_cfg s)); auto. }
+  destruct o as [q|q|q|q|a|d1 d2|a]; simpl.
+  - destruct (ipcp_req (io_cfg s) (io_peer s) q) as [r p'] eqn:R. simpl. intros x Hx.
+    pose proof (ipcp_fold_peer_addr (io_cfg s) q res0 (io_peer s)) as F.
+    unfold ipcp_req in R. rewrite R in F. simpl in F.
+    destruct F as [F|(o & Ho & Ko & To & F)].
+    + apply H. congruence.
+    + rewrite Hx in F. inversion F; subst. rewrite <- (ipcp_kind3_data _ o To). exact Ko.
+  - apply K. apply ipcp_learn_assigned.
+  - apply K. apply ipcp_learn_assigned.
+  - apply K. reflexivity.
+  - intros x Hx. discriminate.
+  - apply K. reflexivity.
+  - apply K. reflexivity.
+Qed.
+
+Lemma iobj_run_remembered : forall ops s, remembered_ok s -> remembered_ok (iobj_run repaired s ops).
+Proof.
+  induction ops as [|o ops IH]; intros s H; simpl; auto. apply IH. apply iobj_step_remembered. exact H.
 Qed.
